@@ -19,6 +19,16 @@ DETERMINISTIC = [
     'mult=1;sets=ctsH.1.0;throws=;d1=newpool0,new1,bulkfq1.1.1,cancel1,sched1.2,wait1,del1,delpool',
     'mult=1;sets=ctsL.4.0;throws=;d1=newpool0,new1,bulkfq1.1.2,cancel1,sched1.3,schedskip1.4,bulk1.5.2,schedfq1.7,wait1,del1,delpool',
 ]
+CASCADE = [
+    # directed: the parent is cancelled from inside the task that owns the nested (kOn) set, i.e. certainly while the child is
+    # registered; the child's flag must be stored by the cascade, its later schedules are dropped, its wait reports cancellation
+    'mult=32;sets=ctsL.4.0,ts.1.1;throws=;d1=newpool1,new1,schedfq1.1,wait1,del1,delpool;b1=new2,schedfq2.2,cancel1,sched2.3,bulk2.4.2,wait2,del2',
+    # depth 2: grandparent cancelled from the task that owns the grandchild
+    'mult=32;sets=ctsL.4.0,ctsL.4.1,ctsH.4.1;throws=;d1=newpool2,new1,schedfq1.1,wait1,del1,delpool;'
+    'b1=new2,schedfq2.2,wait2,del2;b2=new3,schedfq3.3,cancel1,sched3.4,schedfq3.5,wait3,del3',
+    # kOff child is NOT cancelled by the cascade
+    'mult=32;sets=ctsL.4.0,ts.1.0;throws=;d1=newpool1,new1,schedfq1.1,wait1,del1,delpool;b1=new2,schedfq2.2,cancel1,sched2.3,wait2,del2',
+]
 FIXED = [
     'mult=1;sets=ts.1.0;throws=;d1=newpool1,new1,schedfq1.1,schedfq1.2,cancel1,sched1.3,bulk1.4.2,bulkfq1.6.1,schedfq1.7,wait1,del1,delpool',
     'mult=1;sets=ctsL.1.0;throws=;d1=newpool1,new1,schedfq1.1,schedfq1.2,sched1.3,sched1.4,bulk1.5.3,wait1,sync,del1,delpool;d2=await1,cancel1',
@@ -54,10 +64,11 @@ def run(ctx):
     g = tc.Gen(rng)
     n = 6 if thorough else 2
     r0 = tc.run_scenarios(ctx, exe, DETERMINISTIC, WHAT, 2, ctx.seed, 'deterministic cancel-overload-schedule')
-    r1 = tc.run_scenarios(ctx, exe, FIXED if thorough else FIXED[ctx.seed % 2::2] + FIXED[-1:], WHAT, n, ctx.seed + 1, 'fixed programs')
+    r0b = tc.run_scenarios(ctx, exe, CASCADE, WHAT, 2, ctx.seed + 3, 'directed parent cascade')
+    r1 = tc.run_scenarios(ctx, exe, FIXED if thorough else FIXED[ctx.seed % 2::2], WHAT, n, ctx.seed + 1, 'fixed programs')
     scens = [g.single(throws=0.15, cancel=0.9, nested=0.5, pools=(0, 1, 1, 2, 3)) for _ in range(60 if thorough else 8)]
     r2 = tc.run_scenarios(ctx, exe, scens, WHAT, n, ctx.seed + 2, 'random programs with cancels')
-    ctx.cov['executions'] = {'deterministic': r0['executions'], 'fixed': r1['executions'], 'random': r2['executions']}
+    ctx.cov['executions'] = {'deterministic': r0['executions'], 'cascade': r0b['executions'], 'fixed': r1['executions'], 'random': r2['executions']}
     ctx.sample({'programs': DETERMINISTIC[:2] + scens[:3]})
     if r0['traces']:
         ctx.sample_trace(r0['traces'][0], 14, skip=8)
